@@ -133,6 +133,8 @@ def compare(prop, scn, il, ml):
     mb, mt = (ml[:-1], ml[-1]) if ml and ml[-1].startswith('--- ') else (ml, None)
     n = min(len(ib), len(mb))
     for k in range(n):
+        if k < len(scn.lines) and scn.lines[k].startswith('spec_'):
+            continue            # reference-meaning queries exist on the model side only
         a, b = ib[k], mb[k]
         if proj:
             a, b = proj(a), proj(b)
@@ -158,7 +160,8 @@ def evaluate(prop, scns, variant, want_model=True):
         ml = model.get(s.id)
         stats['evaluations'] += 1
         if oracle:
-            for key, text in oracle(s, il or []):
+            res = oracle(s, il or [], ml or []) if oracle.__code__.co_argcount >= 3 else oracle(s, il or [])
+            for key, text in res:
                 problems.append(dict(kind='oracle', key=key, scn=s, text=text))
         if want_model:
             d = compare(prop, s, il, ml)
@@ -293,7 +296,7 @@ def main():
             continue
 
         def still(c, key=p['key']):
-            ps, _, _ = evaluate(prop, [c], variant, want_model=False)
+            ps, _, _ = evaluate(prop, [c], variant, want_model=getattr(prop, 'ORACLE_NEEDS_MODEL', False))
             return any(q['kind'] == 'oracle' and q['key'] == key for q in ps)
         small = shrink(prop, p['scn'], variant, still)
         path = write_replay(pid, 'oracle=%s cause=%s\nseed=%d tier=%s variant=%s\n%s' % (
